@@ -121,35 +121,35 @@ def san_c02(v, tier, seed):
     if tier == Q:
         return
     _checked(v, "C02", [("drift", 3_000_000, 3), ("two", 3_000_000, 3), ("place-exhaustive", 10**10, 5)], seed)
-    run_miri(v, "C02", "drift", seed, 60)
-    run_miri(v, "C02", "two", seed, 60)
+    run_miri(v, "C02", "drift", seed, 25)
+    run_miri(v, "C02", "two", seed, 30)
 
 
 def san_c03(v, tier, seed):
     if tier == Q:
         return
     _checked(v, "C03", [("two", 4_000_000, 3), ("drift", 2_000_000, 3)], seed)
-    run_miri(v, "C03", "two", seed, 80)
+    run_miri(v, "C03", "two", seed, 35)
 
 
 def san_c04(v, tier, seed):
     if tier == Q:
         return
     _checked(v, "C04", [("stack", 3_000_000, 3), ("two", 3_000_000, 3)], seed)
-    run_miri(v, "C04", "stack", seed, 60)
+    run_miri(v, "C04", "stack", seed, 20)
 
 
 def san_c11(v, tier, seed):
     if tier == Q:
         return
     _checked(v, "C11", [("vocab", 10**10, 4), ("numeric", 10**9, 3), ("mutant", 4_000_000, 3), ("valid", 500_000, 3)], seed)
-    run_miri(v, "C11", "mutant", seed, 80)
-    run_miri(v, "C11", "numeric", seed, 60)
+    run_miri(v, "C11", "mutant", seed, 40)
+    run_miri(v, "C11", "numeric", seed, 30)
 
 
 def san_c12(v, tier, seed):
     if tier == Q:
         return
     _checked(v, "C12", [("valid", 2_000_000, 3), ("mutant", 3_000_000, 3)], seed)
-    run_miri(v, "C12", "valid", seed, 40)
-    run_miri(v, "C12", "mutant", seed, 80)
+    run_miri(v, "C12", "valid", seed, 20)
+    run_miri(v, "C12", "mutant", seed, 40)
